@@ -693,17 +693,23 @@ char *search_include_paths(char *filename) {
   if (filename[0] == '/')
     return filename;
 
+  // The cache remembers in which include directory a file was found,
+  // so that a later #include_next continues from the right place.
   static HashMap cache;
-  char *cached = hashmap_get(&cache, filename);
-  if (cached)
-    return cached;
+  int *cached = hashmap_get(&cache, filename);
+  if (cached) {
+    include_next_idx = *cached + 1;
+    return format("%s/%s", include_paths.data[*cached], filename);
+  }
 
   // Search a file from the include paths.
   for (int i = 0; i < include_paths.len; i++) {
     char *path = format("%s/%s", include_paths.data[i], filename);
     if (!file_exists(path))
       continue;
-    hashmap_put(&cache, filename, path);
+    int *idx = calloc(1, sizeof(int));
+    *idx = i;
+    hashmap_put(&cache, filename, idx);
     include_next_idx = i + 1;
     return path;
   }
